@@ -42,7 +42,7 @@ fn inert_strings(toks: &[Tok]) -> (Vec<Tok>, usize) {
     (out, n)
 }
 
-fn check_prog(tp: &TokProg, layouts: &[Layout], rng: &mut Rng, acc: &mut Acc) {
+fn check_prog(tp: &TokProg, layouts: &[Layout], rng: &Rng, acc: &mut Acc) {
     let l0 = match progsrc::lay_checked(tp, Layout::OneTokenPerLine, rng, acc) {
         Some(l) => l,
         None => return,
